@@ -183,6 +183,7 @@ type FX struct {
 	rngPos0   T
 	rngReads  int
 	failN     int
+	chainCache map[string]chainRes
 	warnings  []string
 	cuts      []cutPoint
 	assertsSeen map[string]bool
@@ -1566,6 +1567,22 @@ func (fx *FX) loopEnv(li *loopInfo, st *State, phiVal func(*ssa.Phi) Val, phis [
 	return env
 }
 
+func lastPos(b *ssa.BasicBlock) token.Pos {
+	for i := len(b.Instrs) - 1; i >= 0; i-- {
+		if p := b.Instrs[i].Pos(); p.IsValid() {
+			return p
+		}
+	}
+	for _, p := range b.Preds {
+		for i := len(p.Instrs) - 1; i >= 0; i-- {
+			if q := p.Instrs[i].Pos(); q.IsValid() {
+				return q
+			}
+		}
+	}
+	return token.NoPos
+}
+
 func (fx *FX) closeLoop(li *loopInfo, from *ssa.BasicBlock, succIdx int) {
 	h := li.header
 	st := fx.out[from]
@@ -1599,11 +1616,11 @@ func (fx *FX) closeLoop(li *loopInfo, from *ssa.BasicBlock, succIdx int) {
 	env := fx.loopEnv(li, st, func(phi *ssa.Phi) Val { return fx.val(phi.Edges[pidx]) }, phis)
 	if li.lc != nil {
 		for _, c := range li.lc.Inv {
-			fx.oblige("inv-pres", fmt.Sprintf("loop%d.%s", li.ordinal, c.Label), cond, fx.goalBool(env, c.E), from.Instrs[len(from.Instrs)-1].Pos(), c.Src)
+			fx.oblige("inv-pres", fmt.Sprintf("loop%d.%s", li.ordinal, c.Label), cond, fx.goalBool(env, c.E), lastPos(from), c.Src)
 		}
 		if li.lc.Decreases != nil {
 			nv := fx.evalInt(env, li.lc.Decreases.E)
-			fx.oblige("variant", fmt.Sprintf("loop%d", li.ordinal), cond, and(ge(li.variant, num(0)), lt(nv, li.variant)), from.Instrs[len(from.Instrs)-1].Pos(), li.lc.Decreases.Src)
+			fx.oblige("variant", fmt.Sprintf("loop%d", li.ordinal), cond, and(ge(li.variant, num(0)), lt(nv, li.variant)), lastPos(from), li.lc.Decreases.Src)
 		}
 	}
 }
